@@ -436,12 +436,13 @@ pub fn check_fragment(ctx: &Ctx, frag: &str, cat: &str) -> Result<(), Fail> {
         }
     }
     // the two expression helpers differ only on a string literal
-    for m in [Some(&quoted), bare.as_ref()].into_iter().flatten() {
+    for m in [Some(&quoted), bare.as_ref(), g1.as_ref(), g2.as_ref(), gq1.as_ref(), gq2.as_ref()].into_iter().flatten() {
         ctx.eval();
         let keep = parse_expr::preserve_str_literal(m).map(|e| canon_tokens(e.to_token_stream()));
         let parse = parse_expr::parse_str_literal(m).map(|e| canon_tokens(e.to_token_stream()));
+        // (invisible groups carry no meaning: what counts is the value inside)
         let value = match m {
-            syn::Meta::NameValue(nv) => nv.value.clone(),
+            syn::Meta::NameValue(nv) => ungroup(&nv.value).clone(),
             _ => unreachable!(),
         };
         let user = canon_tokens(value.to_token_stream());
